@@ -16,6 +16,7 @@ def _extra(lines, verdicts):
         "histories": len(lines),
         "learn_rejected_steps": sum(ln.count(" rWrongTokenRange~") + ln.count(" rShardNum~") for ln in lines),
         "maintenance_steps": sum(ln.count(" m~") for ln in lines),
+        "refresh_ops_through_cluster_state": sum(ln.split("|")[0].count(" R/") for ln in lines),
     }
 
 SPEC = {
@@ -23,24 +24,26 @@ SPEC = {
     "coq_targets": ["Props/C15.vo", "Extract/ExC15.vo"],
     "bin": "c15",
     # --n = number of seeded random histories; the exhaustive parts are always generated
-    "sizes": {"quick": 1500, "thorough": 60000},
+    "sizes": {"quick": 12000, "thorough": 60000},
     "search_n": 20000,
     "rule": ("one case = one whole history run on a fresh TabletsInfo through hook H6 with the complete observation "
              "(flags, tablet list with replicas and unresolved replicas, tablet_for_token / replicas_for_token / "
              "dc_replicas_for_token of every watched token) after EVERY step, compared exactly with the extracted model. "
-             "Parts: 5 scenario histories (incl. the two defects found by this check); breadth-first over every tablet "
-             "range set reachable in an 8-point token universe (i64::MIN, MIN+1, -1, 0, 1, 5, MAX-1, MAX: single-token, "
-             "touching, MAX-ending tablets) x every one of the 28 inserts, followed by a maintenance step and a re-insert; "
-             "all histories of length 3 (quick) / 4 (thorough) over a 17-letter alphabet with refused payloads and schema/"
-             "topology maintenance; seeded random histories (length 8..160) over the small universe and over full i64 with "
-             "ScyllaDB-style equal splits, neighbours of used bounds, unknown replicas, removed / recreated nodes (also with "
-             "datacenter change), schema changes, several tables. non-trivial = histories with at least 2 steps; "
-             "distinct = distinct case lines"),
+             "Parts: Hs 7 scenario histories (incl. the two defects found by this check, F7/F8); Hx breadth-first over EVERY tablet "
+             "range set reachable in an 8-point (quick: 610 sets) / 10-point (thorough: 4181 sets) token universe (i64::MIN, MIN+1, "
+             "-1, 0, 1, 5, MAX-1, MAX: single-token, touching, MAX-ending tablets) x every one of the 28 / 45 inserts, followed by a "
+             "maintenance step and a re-insert; Ha all histories of length 3 (quick) / 4 (thorough) over a 17-letter alphabet with "
+             "refused payloads and schema/topology maintenance; Hr/Hi/Hl/Hd seeded random histories (length 8..160) over the small "
+             "universe and over full i64 with ScyllaDB-style equal splits, neighbours of used bounds, unknown replicas, removed / "
+             "recreated nodes (Hd: also with datacenter change), schema changes, several tables; refreshes go through "
+             "ClusterState::perform_tablets_maintenance (R ops) or straight to TabletsInfo::perform_maintenance (M ops, a share with "
+             "arguments the real caller would not produce). non-trivial = histories with at least 2 steps; distinct = distinct case lines"),
     "nontrivial": lambda ln: len(ln.split("|")[0].split()) >= 6,
     "trusted_base": [
         "spec_step / spec_entry / spec_lookup / restrict_dc (coq/Model/Tablets.v PART 2) are the property text transcribed",
         "hook scylla::routing::locator::verif_tablets (pass-through to RawTablet::from_custom_payload, Tablet::from_raw_tablet, "
-        "TabletsInfo::{add_tablet, perform_maintenance}, TableTablets lookups) and scylla::cluster::verif_node::node_without_pool",
+        "TabletsInfo::{add_tablet, perform_maintenance}, TableTablets lookups), scylla::cluster::verif_tablets_maintenance "
+        "(pass-through to ClusterState::perform_tablets_maintenance) and scylla::cluster::verif_node::node_without_pool",
         "slice::partition_point is modelled by its contract (index of the partition of a partitioned slice); partitionedness is proved (C15_partitioned)",
         "HashMap/HashSet arguments are association lists with unique keys; Arc identity = (host, generation, dc) triple",
     ],
